@@ -126,6 +126,10 @@ func serTo(b *strings.Builder, v any, depth int) bool {
 		fmt.Fprintf(b, "%d", t)
 	case int64:
 		fmt.Fprintf(b, "%d", t)
+	case int32:
+		fmt.Fprintf(b, "%d", t)
+	case float32:
+		return serTo(b, float64(t), depth)
 	case float64:
 		if t == 0 {
 			t = 0 // the sign of a zero is not distinguished (0.0 + -0.0 is 0.0)
@@ -347,6 +351,40 @@ func execute(p *asm.Plan, root map[string]any) (o outcome) {
 
 type checker struct {
 	c *mon.Ctx
+	// goInts: the roots handed to ojg hold Go int / int32 / float32 values where the reference's copy holds
+	// int64 / float64 (a root built in Go rather than parsed): the functions accept every number width
+	goInts bool
+}
+
+func (ck *checker) rootCopy(root map[string]any) map[string]any {
+	r := dup(root).(map[string]any)
+	if ck.goInts {
+		narrowNumbers(r)
+	}
+	return r
+}
+
+func narrowNumbers(v any) any {
+	switch t := v.(type) {
+	case []any:
+		for i := range t {
+			t[i] = narrowNumbers(t[i])
+		}
+	case map[string]any:
+		for k := range t {
+			t[k] = narrowNumbers(t[k])
+		}
+	case int64:
+		if t%2 == 0 {
+			return int(t)
+		}
+		return int32(t)
+	case float64:
+		if f := float32(t); float64(f) == t && t != 0 {
+			return f
+		}
+	}
+	return v
 }
 
 func (ck *checker) one(plan []any, root, other map[string]any, origin string) {
@@ -356,6 +394,11 @@ func (ck *checker) one(plan []any, root, other map[string]any, origin string) {
 	}
 	planText := ser(plan)
 	cs := map[string]any{"plan": planText, "root": clip(ser(root)), "origin": origin}
+	ck.goInts = origin == "random" && len(planText)%4 == 0
+	if ck.goInts {
+		c.Cover("root:go-number-widths")
+		cs["root_numbers"] = "Go int / int32 / float32"
+	}
 	c.Begin("asm.Plan.Execute", cs)
 	srcBefore := ser(root["src"])
 
@@ -377,7 +420,7 @@ func (ck *checker) one(plan []any, root, other map[string]any, origin string) {
 	if p == nil {
 		return
 	}
-	r1 := dup(root).(map[string]any)
+	r1 := ck.rootCopy(root)
 	o1 := execute(p, r1)
 	c.Eval(1)
 	fnName := p.Name
@@ -423,7 +466,7 @@ func (ck *checker) one(plan []any, root, other map[string]any, origin string) {
 	}
 
 	// the same Plan value again, and a fresh plan again
-	o2 := execute(p, dup(root).(map[string]any))
+	o2 := execute(p, ck.rootCopy(root))
 	c.Eval(1)
 	c.Cover("rerun:same-plan")
 	if !same(o1, o2, true) {
@@ -439,14 +482,14 @@ func (ck *checker) one(plan []any, root, other map[string]any, origin string) {
 			c.Violation("asm.Plan.Execute", "result-of-earlier-run-changed-by-later-run", faultFn(plan), map[string]any{"plan": planText, "root": cs["root"], "second_root": clip(ser(other)), "origin": origin}, clip(o1.root), clip(now))
 		}
 		// and the plan must still behave as at first
-		o4 := execute(p, dup(root).(map[string]any))
+		o4 := execute(p, ck.rootCopy(root))
 		c.Eval(1)
 		if !same(o1, o4, true) {
 			c.Violation("asm.Plan.Execute", "plan-behaves-differently-after-a-run-on-other-data", faultFn(plan), map[string]any{"plan": planText, "root": cs["root"], "second_root": clip(ser(other)), "origin": origin}, o1.flag()+" "+clip(o1.root), o4.flag()+" "+clip(o4.root))
 		}
 	}
 	if p3 := asm.NewPlan(dup(plan).([]any)); p3 != nil {
-		o3 := execute(p3, dup(root).(map[string]any))
+		o3 := execute(p3, ck.rootCopy(root))
 		c.Eval(1)
 		if !same(o1, o3, true) {
 			c.Violation("asm.Plan.Execute", "nondeterministic", faultFn(plan), cs, o1.flag()+" "+clip(o1.root), o3.flag()+" "+clip(o3.root))
@@ -462,7 +505,7 @@ func (ck *checker) one(plan []any, root, other map[string]any, origin string) {
 		if pn := mon.Guard(func() { ps = asm.NewPlan(dup(sl).([]any)) }); pn != nil || ps == nil {
 			c.Violation("asm.Plan.Simplify", "rebuild-fails", faultFn(plan), cs, "a plan", fmt.Sprint(pn))
 		} else {
-			os := execute(ps, dup(root).(map[string]any))
+			os := execute(ps, ck.rootCopy(root))
 			c.Eval(1)
 			c.Cover("rebuild:Simplify")
 			if !same(o1, os, false) {
@@ -496,7 +539,7 @@ func (ck *checker) one(plan []any, root, other map[string]any, origin string) {
 			if pn := mon.Guard(func() { pt = asm.NewPlan(bl) }); pn != nil || pt == nil {
 				c.Violation("asm.Plan.String", "rebuild-fails", cls, cs2, "a plan", fmt.Sprint(pn))
 			} else {
-				ot := execute(pt, dup(root).(map[string]any))
+				ot := execute(pt, ck.rootCopy(root))
 				c.Eval(1)
 				c.Cover("rebuild:String")
 				if !same(o1, ot, false) {
@@ -507,7 +550,7 @@ func (ck *checker) one(plan []any, root, other map[string]any, origin string) {
 					if cls != "other/"+faultFn(plan) {
 						confirmed := false
 						if pa := asm.NewPlan(senView(dup(plan)).([]any)); pa != nil {
-							oa := execute(pa, dup(root).(map[string]any))
+							oa := execute(pa, ck.rootCopy(root))
 							confirmed = same(ot, oa, false) && ot.flag() == oa.flag()
 						}
 						if !confirmed {
@@ -525,7 +568,7 @@ func (ck *checker) one(plan []any, root, other map[string]any, origin string) {
 	if v, err := oj.Parse([]byte(jt)); err == nil {
 		if jl, ok := v.([]any); ok {
 			if pj := asm.NewPlan(jl); pj != nil {
-				oj1 := execute(pj, dup(root).(map[string]any))
+				oj1 := execute(pj, ck.rootCopy(root))
 				c.Eval(1)
 				c.Cover("rebuild:json-text")
 				if !same(o1, oj1, false) {
@@ -732,7 +775,7 @@ type gen struct {
 	// reads back differently (known findings); they are kept to a small share of the plans so that
 	// they cannot mask anything else
 	senHostile bool
-	keys   []string // keys already set under $.asm
+	keys       []string // keys already set under $.asm
 }
 
 func (g *gen) pick(xs ...any) any {
